@@ -37,8 +37,19 @@ pub trait RiBufImpl: Sized + RiRefBufImpl {
 
 	#[inline]
 	fn set_scheme(&mut self, new_scheme: &Scheme) {
+		#[cfg(iref_verif)]
+		let span = crate::verif_trace::enter::<Self>(
+			"set_scheme",
+			false,
+			self.as_bytes(),
+			Some(new_scheme.as_bytes()),
+		);
+
 		let range = parse::scheme(self.as_bytes(), 0);
 		unsafe { self.replace(range, new_scheme.as_bytes()) }
+
+		#[cfg(iref_verif)]
+		span.exit(self.as_bytes());
 	}
 }
 
